@@ -212,10 +212,11 @@ def shrink(case):
 
 def _retyped(rnd, items):
     t = rnd.choice(["f", "q", "i"])
+    partial = rnd.random() < 0.5  # only some outcomes change type (mixed-type histograms)
     out = []
     for o, c in items:
         v = C.dec_out(o)
-        if isinstance(v, bool) or Fraction(v).denominator != 1:
+        if isinstance(v, bool) or Fraction(v).denominator != 1 or (partial and rnd.random() < 0.5):
             out.append([o, c])
         else:
             out.append([C.enc_out(float(v) if t == "f" else Fraction(int(v)) if t == "q" else int(v)), c])
@@ -277,6 +278,20 @@ def generate(rnd, tier, scale):
                 queries.append(["eq", rnd.randrange(nh), rnd.randrange(nh)])
             else:
                 queries.append(["lt", rnd.randrange(nh)])
+        if rnd.random() < 0.4:
+            # the same partial selection on two same-sized pools of equal-but-differently-typed dice
+            twin_idx = [i for i, f in enumerate(fam) if f[0] == "h"]
+            if len(twin_idx) >= 2:
+                a_i, b_i = rnd.sample(twin_idx, 2)
+                k = rnd.randint(2, 4)
+                pools.append([a_i] * k)
+                pools.append([b_i] * k)
+                sel = rnd.choice([[["i", -1]], [["i", 0]], [["s", None, 1, None]], [["s", -2, None, None]], [["i", 0], ["i", 0]]])
+                qk = rnd.choice(["ph", "rwc"])
+                qs = [[qk, len(pools) - 2, sel], [qk, len(pools) - 1, sel]]
+                rnd.shuffle(qs)
+                at = rnd.randint(0, len(queries))
+                queries = queries[:at] + qs + queries[at:]
         if pair:
             nn = rnd.choice([1, 2, 3])
             pos = rnd.randint(-nn, nn - 1)
